@@ -16,10 +16,15 @@ INFO = {
              '1..64: add unique values, resize up/down, iterate, reseed; invariants after every step. Non-trivial = A: a '
              'non-200 outcome or requests after a reset; B: a resize after the store has overflowed. Distinct histories counted.'),
     'assumptions': ['routes have pairwise distinct patterns (the report is keyed by pattern, O9)',
+                    'an exception of the werkzeug HTTPException family raised by a route is "an HTTPException" in the sense of the statement: counted under its code or under the status answered (500), not under its class name',
                     'the reset request\'s own hit must be counted exactly once: either in the totals that reset returns or in the following epoch'],
 }
 
-ROUTE_KINDS = ['answer', 'redirect', 'raise403', 'ret404', 'raise500', 'ret503', 'nb403', 'nbret404', 'boom', 'answer-post', 'created']
+ROUTE_KINDS = ['answer', 'redirect', 'raise403', 'ret404', 'raise500', 'ret503', 'nb403', 'nbret404', 'boom', 'answer-post', 'created',
+               'wz410', 'wzkey']
+# exceptions of werkzeug's own HTTPException family (abort(), the BadRequestKeyError of request.args[...]): the framework answers 500;
+# the count goes under the exception's code - or under the status answered - but it is an HTTPException, not an anonymous crash
+WZ = {'wz410': '410', 'wzkey': '400'}
 
 
 def make_app():
@@ -27,7 +32,12 @@ def make_app():
     from clastic.middleware.stats import StatsMiddleware, create_stats_app
 
     def mk(kind):
-        def ep():
+        def ep(request):
+            if kind == 'wz410':
+                from werkzeug.exceptions import Gone
+                raise Gone()
+            if kind == 'wzkey':
+                return Response(request.args['zq_absent'])
             if kind in ('answer', 'answer-post'):
                 return Response('ok-' + kind)
             if kind == 'created':
@@ -67,7 +77,8 @@ def make_app():
 
 
 OUTCOME_KEY = {'answer': '200', 'answer-post': '200', 'created': '201', 'redirect': '302', 'raise403': '403', 'ret404': '404',
-               'raise500': '500', 'ret503': '503', 'nb403': '403', 'nbret404': '404', 'boom': 'ZeroDivisionError'}
+               'raise500': '500', 'ret503': '503', 'nb403': '403', 'nbret404': '404', 'boom': 'ZeroDivisionError',
+               'wz410': '410', 'wzkey': '400'}
 NULL = '/<_ignored*>'
 
 
@@ -120,7 +131,7 @@ class StatsSim(object):
             if self.after_reset:
                 self.nontrivial = True
             exp = executed(self.table, path, method)[-1][1]
-            want = 500 if exp == 'ZeroDivisionError' else int(exp)
+            want = 500 if exp == 'ZeroDivisionError' or path in ('/r/wz410', '/r/wzkey') and exp in ('410', '400') else int(exp)
             if r.status != want:
                 ctx.mismatch('status-with-stats', '%s %s -> %s, expected %s' % (method, path, r.status, want))
         elif kind == 'read':
@@ -150,7 +161,10 @@ class StatsSim(object):
         got = Counter()
         for pattern, by_status in rep.items():
             for k, d in by_status.items():
-                got[(pattern, strip(k))] += d['count']
+                key = strip(k)
+                if pattern[3:] in WZ and key == '500':
+                    key = WZ[pattern[3:]]                    # counted under the status answered: equally fine
+                got[(pattern, key)] += d['count']
         want = Counter(dict((k, v) for k, v in self.model.items() if v))
         in_old = False
         if got != want:
